@@ -165,25 +165,6 @@ func verifC01Known(src []byte, f *File, o verifOpts) bool {
 	if verifKnown("C01-zsh-redir-bang", bang && verifParam("lang") == 4) {
 		return true
 	}
-	// a heredoc body whose last line ends in a backslash
-	hdocCont := false
-	Walk(f, func(n Node) bool {
-		if r, ok := n.(*Redirect); ok && r.Hdoc != nil && len(r.Hdoc.Parts) > 0 {
-			if l, ok := r.Hdoc.Parts[len(r.Hdoc.Parts)-1].(*Lit); ok {
-				v := l.Value
-				if k := len(v); k >= 2 && v[k-1] == '\n' && v[k-2] == '\\' {
-					hdocCont = true
-				}
-				if k := len(v); k >= 1 && v[k-1] == '\\' {
-					hdocCont = true
-				}
-			}
-		}
-		return true
-	})
-	if verifKnown("C01-heredoc-continuation-before-delimiter", hdocCont) {
-		return true
-	}
 	// zsh-only short parameter expansion forms
 	flagOrder, hashJoined, emptyParam := false, false, false
 	Walk(f, func(n Node) bool {
